@@ -24,11 +24,12 @@ deriving Repr, Inhabited
 
 def Partial.empty : Partial := ⟨Store.empty, []⟩
 
+/-- remember a deleted prefix (once): the `seen` map of `PartialKV` -/
+def addPfx (dp : List Bytes) (op : Op) : List Bytes :=
+  if op.kind = .deletePrefix ∧ ¬ dp.contains op.key then dp ++ [op.key] else dp
+
 /-- `PartialKV.DeletePrefix`: record the operation and remember the prefix (once) -/
-def Partial.record (p : Partial) (op : Op) : Partial :=
-  let dp := if op.kind = .deletePrefix ∧ ¬ p.deletedPrefixes.contains op.key
-            then p.deletedPrefixes ++ [op.key] else p.deletedPrefixes
-  ⟨SV.record p.store op, dp⟩
+def Partial.record (p : Partial) (op : Op) : Partial := ⟨SV.record p.store op, addPfx p.deletedPrefixes op⟩
 
 /-- one block on a partial store: the module's calls, then `Flush` -/
 def Partial.execBlock (cfg : Cfg) (sem : Sem) (p : Partial) (calls : List Op) : Except SErr Partial :=
@@ -39,11 +40,9 @@ def Partial.execBlock (cfg : Cfg) (sem : Sem) (p : Partial) (calls : List Op) : 
 
 /-- `PartialKV.ApplyOps` (after the fix of F5): remembers the prefixes of the replayed log -/
 def Partial.applyOps (cfg : Cfg) (sem : Sem) (p : Partial) (log : List Op) : Except SErr Partial :=
-  let dp := log.foldl (fun dp op =>
-    if op.kind = .deletePrefix ∧ ¬ dp.contains op.key then dp ++ [op.key] else dp) p.deletedPrefixes
   match flush cfg sem { p.store with ops := log } with
   | .error e => .error e
-  | .ok s => .ok ⟨s, dp⟩
+  | .ok s => .ok ⟨s, log.foldl addPfx p.deletedPrefixes⟩
 
 /-! ### typed readers used by merge -/
 
